@@ -678,6 +678,64 @@ def remap_always(ctx, rule='C16.remap-always'):
     return res
 
 
+def results_option_free(ctx, rule='C16.results-option-free'):
+    """no call of the public API is refused because of an open option: wherever a value of the crate's error type is built outside open, header selection and the strict check,
+    the branches that decide whether that block is reached do not depend on the page size or on a flag.  A limit that scales with the page size (`key.len() > pagesize / 4`) makes the
+    same history succeed under one configuration and fail under another"""
+    import c06
+    res = []
+    F = ctx.facts
+    flags = {f['name'] for f in (F.adt_fields('DBFlags') or [])} | {f['name'] for f in (F.adt_fields('OpenOptions') or [])}
+    exempt = set()
+    for q in ('OpenOptions::open', 'DBInner::open', 'DBInner::meta', 'check-role'):
+        g = ctx.A.get(q)
+        if g is not None:
+            exempt.add(g)
+    exempt |= set(getattr(ctx.A, 'hdr_helpers', ()))
+    ck = ctx.A.get('check-role')
+    if ck is not None:
+        exempt |= {g for g in F.reachable_fns([ck])}
+    n = 0
+    for fn in sorted(F.fns, key=lambda g: g.path):
+        owner = fn.owner if fn.kind == 'Closure' else fn
+        if owner in exempt or (fn.self_adt and last_seg(fn.self_adt) == 'OpenOptions'):
+            continue
+        origins = {bb: v for bb, v in c06._error_origins(fn).items() if v not in ('Io', 'IO', 'IOError', 'ReadOnlyTx')}
+        if not origins or any(m in ('derive',) for m in ()):
+            continue
+        if fn.trait:
+            continue        # Display / From / PartialEq impls of the error type mention its variants without refusing anything
+        du = ctx.du(fn)
+        blocks = fn.reachable_blocks()
+        for eb, variant in sorted(origins.items()):
+            n += 1
+            hit = None
+            for sb in blocks:
+                t = fn.term(sb)
+                if t['k'] != 'switch':
+                    continue
+                succs = fn.succ(sb)
+                reach = [eb in fn.reach_from([x]) for x in succs]
+                if not any(reach) or all(reach):
+                    continue
+                locs, atoms = du.slice_operand(t['discr'])
+                dep = sorted({a[2] for a in atoms if a[0] in ('field', 'load') and (a[2] == 'pagesize' or (a[1] and last_seg(a[1]) in ('DBFlags', 'OpenOptions') and a[2] in flags))}
+                             | {last_seg(strip_generics(a[2])) for a in atoms if a[0] == 'call' and last_seg(strip_generics(a[2])) in ('pagesize', 'page_size')})
+                if dep:
+                    hit = (sb, dep)
+                    break
+            if hit:
+                res.append(bad(rule, '%s | Error::%s decided by %s' % (fn.qual, variant, ','.join(hit[1])),
+                               'whether %s returns Error::%s (built at %s) is decided by a test of %s at %s: the same call succeeds under one configuration and fails under another'
+                               % (fn.qual, variant, fn.loc(eb), ', '.join(hit[1]), fn.loc(hit[0])), where=fn.loc(hit[0])))
+    f = floor(rule, 'error constructions outside open / header selection / strict check', n, 8)
+    if f:
+        res.append(f)
+    if not any(not r.ok for r in res):
+        res.append(ok(rule, 'none of the %d error constructions outside open, header selection and the strict check is decided by the page size or a flag' % n, sites=n))
+    return res
+
+
 def flags_flow(ctx, rule='C16.flags-flow'):
     """sibling call sites must agree on which option feeds a boolean parameter (an option wired to another option's parameter changes
     behaviour under that option only)"""
@@ -779,6 +837,10 @@ def run(ctx, tier):
     results += no_pow2_arith(ctx)
     results += remap_always(ctx)
     results += flags_flow(ctx)
+    results += results_option_free(ctx)
+    import c05
+    # a run freed or sized with the wrong length loses pages only where values overflow a page, i.e. depending on the page size (and strict mode then rejects what non-strict accepts)
+    results += c05.run_length(ctx, rule='C16.run-length')
     results += thresholds(ctx)
     import c02
     results += c02.reload_rule(ctx, rule='C16.reload')
